@@ -48,7 +48,7 @@ Observe(r) ==
   /\ obuf' = [c \in Children |-> IF r.buflen[c] = 0 THEN <<>> ELSE << <<0, r.buflen[c]>> >>]
   /\ oclosed' = [c \in Children |-> ~r.open[c]]
   /\ owire' = [c \in Children |-> owire[c] \o Dgrams(r.got[c])]
-  /\ opre' = [size |-> SumSizes(ocur), sz |-> IF r.op \in Writes THEN r.size ELSE 0, bad |-> obad]
+  /\ opre' = [size |-> SumSizes(ocur), sz |-> IF r.op \in Writes THEN r.size ELSE 0, bad |-> obad, closeCalled |-> (opre.closeCalled \/ lastOp = "close")]
   /\ IF r.op \in Writes
      THEN /\ ocur' = IF r.res = "ok" THEN Append(ocur, <<r.id, r.size>>) ELSE ocur
           /\ obad' = (obad \/ r.res # "ok")
@@ -74,6 +74,8 @@ Judge(r) ==
   /\ IF ~O!NotOpenAfterClose' THEN Fail("NotOpenAfterClose") ELSE TRUE
   /\ IF ~O!CloseIdempotent' THEN Fail("CloseIdempotent") ELSE TRUE
   /\ IF ~O!NeverPanics' THEN Fail("NeverPanics") ELSE TRUE
+  /\ IF ~O!UseAfterCloseNotOpen' THEN Fail("UseAfterCloseNotOpen") ELSE TRUE
+  /\ IF ~O!SecondCloseOk' THEN Fail("SecondCloseOk") ELSE TRUE
   (* conformance with the implementation-shaped model: not a verdict *)
   /\ IF res' # r.res THEN Fail("Drift:result") ELSE TRUE
   /\ IF \E c \in Children : SumSizes(buf'[c]) # r.buflen[c] THEN Fail("Drift:buffered-length") ELSE TRUE
